@@ -377,14 +377,23 @@ pub fn check_jacobian<T: Sc>(prob: &dyn Prob<T>, lin: &Lin, c: &Mat, jac: &DMatr
     if jac.nrows() != sh.n * sh.s || jac.ncols() != sh.p {
         return Err(Fail::new("c03.shape", format!("{tag}: Jacobian is {}x{}, expected {}x{}", jac.nrows(), jac.ncols(), sh.n * sh.s, sh.p)));
     }
-    if lin.class != RankClass::ClearFull {
-        skipped.push("c03:not-clear-full-rank".into());
+    // premise of C03: W∘Phi has full column rank. That is a statement about the matrix, not about
+    // the truncation threshold: with singular values at or below the threshold (but well above the
+    // rounding level of the scalar type) the coefficients are the truncated ones, and the property
+    // still defines column k as -(I-P) W D_k C with P the projector onto the whole range.
+    let smax = lin.svd.smax();
+    let smin = lin.svd.smin();
+    let numerically_full = lin.n >= lin.m && smax > 0.0 && smin > 100.0 * lin.k() * lin.ut * smax;
+    if !numerically_full {
+        skipped.push("c03:not-numerically-full-column-rank".into());
         return Ok(skipped);
+    }
+    if lin.class != RankClass::ClearFull {
+        skipped.push("c03:full-rank-with-truncated-singular-values(checked)".into());
     }
     let kf = lin.k();
     let kfw = lin.kf();
-    let smax = lin.svd.smax();
-    let kappa = lin.kappa_kept();
+    let kappa = smax / smin;
     let gate_ok = kfw * lin.ut * kappa <= FORWARD_GATE;
     if !gate_ok {
         skipped.push("c03.bc:kappa-gate".into());
